@@ -1,13 +1,17 @@
-"""Per-property check plans. A plan names the bounded design models TLC
-explores, the scripts that are executed on the real code and the trace
-specification that decides them."""
+"""Property plans, assembled from the family modules lib/plan_*.py.
+
+Every family module declares which properties it contributes to (PROPS) and
+provides: mc(prop, tier) -> bounded design models to check exhaustively,
+exports(prop, tier) -> bounded models whose behaviours TLC exports as scripts,
+episodes(prop, tier, seed) -> generated scripts. All scripts are executed on
+the real code and judged by the family's trace specification."""
+import glob
+import importlib
 import json
+import os
 
 import core
 import driver
-import gen_bitvec
-
-TRACE_SPEC = {"bitvec": "Trace_BitVec"}
 
 ASSUME_COMMON = [
     "TLC (explicit-state model checker) and the TLA+ specifications under /verif/spec are the oracle",
@@ -16,42 +20,42 @@ ASSUME_COMMON = [
 ]
 
 
-def _nontrivial_bitvec(epi):
-    ops = [o["op"] for o in epi["ops"]]
-    shrink = any(o in ("pop", "resize") for o in ops)
-    return shrink or ops[0] == "raw" or "into" in ops
+def families():
+    here = os.path.dirname(os.path.abspath(__file__))
+    mods = []
+    for p in sorted(glob.glob(os.path.join(here, "plan_*.py"))):
+        mods.append(importlib.import_module(os.path.basename(p)[:-3]))
+    return mods
 
 
-def c06(run):
-    q = run.tier == "quick"
-    run.mc_run("MC_BitVec", "MC_BitVec_small2.cfg" if q else "MC_BitVec_small.cfg", workers=6,
-               must_cover=["MC_BitVec.Construct", "MC_BitVec.Mutate"])
-    eps = run.export("MC_BitVec", "MC_BitVec_w64_d2.cfg" if q else "MC_BitVec_w64_d3.cfg", workers=6)
-    run.batch("tlc", "Trace_BitVec", eps, nontrivial=_nontrivial_bitvec)
-    n = 1500 if q else 20000
-    eps = gen_bitvec.random_episodes(run.seed, n) + gen_bitvec.atomic_ctor_episodes()
-    run.batch("rand", "Trace_BitVec", eps, nontrivial=_nontrivial_bitvec)
-    if not q:
-        run.batch("rand-release", "Trace_BitVec", gen_bitvec.random_episodes(run.seed + 1, 5000), profile="release",
-                  nontrivial=_nontrivial_bitvec)
-    return run.finish(ASSUME_COMMON + ["W = 64 backends only (BitVec is implemented for usize words)"],
-                      "episode = constructor + operation history + observer battery; non-trivial = contains a "
-                      "shrink (pop/resize), a dirty raw start or a form conversion; distinct by operation list")
-
-
-PLANS = {"C06": c06}
+def by_family():
+    return {m.FAMILY: m for m in families()}
 
 
 def run(prop, tier, seed):
-    if prop not in PLANS:
+    fams = [m for m in families() if prop in m.PROPS]
+    if not fams:
         raise core.ToolError("no check for %s" % prop)
-    return PLANS[prop](driver.Run(prop, tier, seed))
+    r = driver.Run(prop, tier, seed)
+    rules, assume = [], list(ASSUME_COMMON)
+    for m in fams:
+        for (module, cfg, must) in m.mc(prop, tier):
+            r.mc_run(module, cfg, must_cover=must)
+        for (name, module, cfg) in m.exports(prop, tier):
+            eps = r.export(module, cfg)
+            r.batch("%s-%s" % (m.FAMILY, name), m.TRACE_SPEC, eps, nontrivial=m.nontrivial)
+        for name, (eps, profile) in m.episodes(prop, tier, seed).items():
+            r.batch("%s-%s" % (m.FAMILY, name), m.TRACE_SPEC, eps, profile=profile, nontrivial=m.nontrivial)
+        rules.append(m.RULE)
+        assume += m.ASSUME
+    return r.finish(assume, " | ".join(rules))
 
 
 def replay(prop, path, seed):
     epi = json.loads(open(path).read().splitlines()[0])
-    r = driver.Run(prop, "quick", seed)
-    r.batch("replay", TRACE_SPEC[epi["fam"]], [epi], profile=epi.get("profile", "verif"), shards=1)
+    fam = by_family()[epi["fam"]]
+    r = driver.Run(prop, "replay", seed)
+    r.batch("replay", fam.TRACE_SPEC, [epi], profile=epi.get("profile", "verif"), shards=1)
     # a replay never rewrites the evidence file
     for (e, ev, why, name, profile) in r.violations:
         print("VIOLATION property=%s replay=%s" % (prop, path))
@@ -59,5 +63,5 @@ def replay(prop, path, seed):
         return core.EXIT_VIOLATION
     for fid in r.known:
         print("KNOWN-FINDING: property=%s %s" % (prop, fid))
-    print("replay accepted by %s" % TRACE_SPEC[epi["fam"]])
+    print("replay accepted by %s" % fam.TRACE_SPEC)
     return core.EXIT_OK
